@@ -44,14 +44,15 @@ def episode_for(project, rng, n_pat=6):
         s1 = ep.scan(mpath=mp, ext=True)
         ep.law("internal", [s0, s1])
         for p in rng.sample(pats, min(n_pat, len(pats))):
-            group = [p] if rng.random() < 0.7 else [p, rng.choice(pats)]
+            group = [p] if rng.random() < 0.6 else [p, rng.choice(pats)]
             sg = ep.scan(mpath=mp, ext=True, extexcl={"kind": "glob", "patterns": group})
             ep.law("internal", [s0, sg])
             if rng.random() < 0.3:      # external options x level limit: the limited scan is the quotient of the unlimited one
                 sl = ep.scan(mpath=mp, ext=True, extexcl={"kind": "glob", "patterns": group}, limit=rng.randint(0, 2))
                 ep.law("quotient", [sg, sl])
             if rng.random() < 0.4:
-                sr = ep.scan(mpath=mp, ext=True, extexcl={"kind": "regex", "patterns": group, "from_glob": True})
+                sr = ep.scan(mpath=mp, ext=True, extexcl={"kind": "regex", "patterns": group, "from_glob": True,
+                                                          "join": rng.random() < 0.5})
                 ep.law("internal", [s1, sr])
                 ep.law("same", [sg, sr])
     return ep.spec
